@@ -7,19 +7,20 @@ import Dawn.Proofs.BuildPath
 # C01, C02, C03, C13, C14 — the incremental engine
 
 Property theorems only. The model (`Dawn/Model/Build.lean`) follows `runTarget.Evaluate`, the two `upToDate` functions,
-`saveTargetInfo`, `dirSum`, `targetInfoPath` and `GC` as they are after the repairs D8, D9, D18, D22, D29; it is tied to the
+`saveTargetInfo`, `dirSum`, `targetInfoPath` and `GC` as they are after the repairs D8, D9, D18, D22, D29, D32; it is tied to the
 source by `Dawn/Ties/Build.lean` and by the correspondence stream `build.history` (every operation of generated
 histories, real engine in a fresh process vs `drv_build`).
 
 Standing hypotheses, all explicit:
-* `Fixed P`: the repaired engine (`stampRuns`, `marker`) and an injective `sha256` (`SumInj`).
-* `Conforms S t`: the tree a load sees is well declared — a body reads and writes what its function's fingerprint
-  determines, what it reads is declared as a dependency, every generated path has one owner, a source whose file a
-  live target generates depends on that target (`link`). The gap this leaves: a body that reads *whichever sources it
-  has* (`self.sources` of a `glob`) reads a set its code does not determine, so the general C01 theorems do not speak
-  about a dependency that goes away with the code unchanged. That case is D29: `C01_removed_dependency_counterexample`
-  and the example after it are the model's witnesses (parameter `depCount`), the stream `build.history` with glob
-  targets and `rmsrc`/`delete` edits is the test.
+* `Fixed P`: the repaired engine (`stampRuns`, `marker`, `listCheck`) and an injective `sha256` (`SumInj`).
+* `Conforms S t`: the tree a load sees is well declared — a body writes what its function's fingerprint determines and
+  reads what its fingerprint *and the lists it is handed through `self`* determine (`Shape.readsOf l env attrs`: a body
+  may read `self.sources` in order, whatever a `glob` matched), its output may depend on those lists themselves
+  (`Params.out` takes them), what it reads is declared as a dependency, every generated path has one owner, a source
+  whose file a live target generates depends on that target (`link`). Before the D32 repair the record did not remember
+  the lists, and the theorems had to assume that the code alone determines what a body reads; that gap is closed:
+  `C01_removed_dependency_counterexample` (D29) and `C01_reordered_sources_counterexample` (D32) are what went wrong
+  without the two tests. What `generates=` lists is still taken to be determined by the code (`Conforms.gens`).
 * `Nodup ord ∧ Sorted t [] ord`: the runner hands each target to `Evaluate` once, after its dependencies (C04).
 * `Reach P S R w`: `w` is the persisted state after ANY finite history of edits, real builds of any target lists with any
   failing bodies, dry runs, builds or loads killed at any hook point, and garbage collections
@@ -32,6 +33,7 @@ namespace Dawn.Build
 structure Fixed (P : Params) : Prop where
   stampRuns : P.stampRuns = true
   marker : P.marker = true
+  listCheck : P.listCheck = true
   inj : SumInj P
 
 /-- `sha256` modelled by the identity on canonical values is injective: the hypothesis `SumInj` is satisfiable -/
@@ -77,8 +79,8 @@ theorem C01_consistent {P : Params} {S : Shape} {t : Tree} {o : Opts} (hf : Fixe
     (ord : List Label) (hord : RunnerOrder t ord) {R : Label → Prop} (w : World) (hw : Reach P S R w) (hnr : NotRecreated R t) :
     ∀ l m d, (runBuild P t o ord w).memo l = some m → m.ok = true → t.defs l = some d → d.kind = .fn →
       Consistent P t (runBuild P t o ord w).w l d := by
-  obtain ⟨G, di, hr⟩ := reach_dinv hf.inj hf.stampRuns hf.marker hw
-  exact (build_consistent hc hf.inj hf.stampRuns hdry ord w G di (hord.ordered P o _) (by rw [hr]; exact hnr)).choose_spec.2.2
+  obtain ⟨G, di, hr⟩ := reach_dinv hf.inj hf.stampRuns hf.listCheck hf.marker hw
+  exact (build_consistent hc hf.inj hf.stampRuns hf.listCheck hdry ord w G di (hord.ordered P o _) (by rw [hr]; exact hnr)).choose_spec.2.2
 
 /-- C01, second formulation: after any history of edits and builds (full, partial, failed, interrupted), the files
 generated by a successful incremental build equal those a from-scratch build (no records) of the same tree produces.
@@ -90,8 +92,8 @@ theorem C01_equiv_clean {P : Params} {S : Shape} {t : Tree} {o oc : Opts} (hf : 
     (hokA : AllOk (runBuild P t o ord w) ord) (hokB : AllOk (runBuild P t oc ord wc) ord) :
     ∀ x ∈ ord, ∀ d, t.defs x = some d → d.kind = .fn → ∀ g ∈ d.gens,
       (runBuild P t o ord w).w.files g = (runBuild P t oc ord wc).w.files g := by
-  obtain ⟨G, di, hr⟩ := reach_dinv hf.inj hf.stampRuns hf.marker hw
-  exact equiv_clean hc hf.inj hf.stampRuns hdry hdryc ord w wc G di hclean hsame (hord.ordered P o _) (hord.ordered P oc _)
+  obtain ⟨G, di, hr⟩ := reach_dinv hf.inj hf.stampRuns hf.listCheck hf.marker hw
+  exact equiv_clean hc hf.inj hf.stampRuns hf.listCheck hdry hdryc ord w wc G di hclean hsame (hord.ordered P o _) (hord.ordered P oc _)
     hord.2 (by rw [hr]; exact hnr) hokA hokB
 
 /-! ### the defects, as regression witnesses on the old behaviour
@@ -106,8 +108,8 @@ def exDefs : Label → Option Def
 
 def exTree : Tree := ⟨exDefs, [1, 2, 3]⟩
 
-def exOut : Label → Env → List (Label × List (Path × SrcVal)) → Path → Nat :=
-  fun l e obs g => l + e + g + (obs.map fun o => (o.2.map fun pv => match pv.2 with | .file c => c | _ => 0).sum).sum
+def exOut : Label → Env → Attrs → List (Label × List (Path × SrcVal)) → Path → Nat :=
+  fun l e _ obs g => l + e + g + (obs.map fun o => (o.2.map fun pv => match pv.2 with | .file c => c | _ => 0).sum).sum
 
 def exP : Params := { sum := id, out := exOut }
 def exOpts : Opts := ⟨false, false, fun _ => false⟩
@@ -138,7 +140,7 @@ theorem C01_partial_build_counterexample :
 directory is invisible: nothing executes, while a from-scratch build sees another listing. -/
 theorem C01_dir_rename_counterexample :
     let P : Params := { exP with sum := fun v => match v with | .dir es => .dir (es.map fun e => (0, e.2)) | v => v,
-                                 out := fun l e obs g => l + e + g + (obs.map fun o => (o.2.map fun pv =>
+                                 out := fun l e _ obs g => l + e + g + (obs.map fun o => (o.2.map fun pv =>
                                    match pv.2 with | .file c => c | .dir es => (es.map fun e => 7 * e.1 + e.2).sum | _ => 0).sum).sum }
     let w0 : World := { exW0 with files := fun p => if p = 10 then .dir [(1, 5)] else .missing }
     let w1 := (runBuild P exTree exOpts [1, 2, 3] w0).w
@@ -164,7 +166,7 @@ def exGlobW0 : World := ⟨fun p => if p = 10 then .file 5 else if p = 11 then .
 /-- D29: before the repair a dependency that went away was not noticed: every remaining dependency is listed
 unchanged, so the target is skipped, and its output still reflects the deleted file. -/
 theorem C01_removed_dependency_counterexample :
-    let P : Params := { exP with depCount := false }
+    let P : Params := { exP with depCount := false, listCheck := false }   -- (the D32 repair notices the shorter list as well)
     let w1 := (runBuild P exGlobA exOpts [1, 4, 3] exGlobW0).w
     let w2 : World := { w1 with files := upd w1.files 11 .missing }           -- delete the second source
     let b3 := runBuild P exGlobB exOpts [1, 3] w2
@@ -182,19 +184,66 @@ example :
       (runBuild exP exGlobB exOpts [1, 3] b3.w).execs = [] := by
   decide
 
+/-- D32: the same two sources in the other order (`sources=["b", "a"]` instead of `["a", "b"]`), same code, same
+environment: the body reads `self.sources` in order. -/
+def exGlobSwapped : Tree := ⟨fun l => match l with
+  | 1 => some ⟨.src, [], [], [], false, 0, 10⟩
+  | 4 => some ⟨.src, [], [], [], false, 0, 11⟩
+  | 3 => some ⟨.fn, [4, 1], [4, 1], [21], false, 101, 0⟩
+  | _ => none, [1, 4, 3]⟩
+/-- … and with the first source listed twice -/
+def exGlobTwice : Tree := ⟨fun l => match l with
+  | 1 => some ⟨.src, [], [], [], false, 0, 10⟩
+  | 4 => some ⟨.src, [], [], [], false, 0, 11⟩
+  | 3 => some ⟨.fn, [1, 4, 1], [1, 4, 1], [21], false, 101, 0⟩
+  | _ => none, [1, 4, 3]⟩
+
+/-- an output that depends on the order in which the body is handed its inputs -/
+def exOutOrdered : Label → Env → Attrs → List (Label × List (Path × SrcVal)) → Path → Nat :=
+  fun l e _ obs g => l + e + g + (obs.foldl (fun acc o => 10 * acc + (o.2.map fun pv => match pv.2 with | .file c => c | _ => 0).sum) 0)
+
+/-- D32: before the repair the order and the multiplicity of the entries of `sources=` / `deps=` were not part of the
+up-to-date test — the record keeps the dependencies as a map — although a body sees them (`self.sources`,
+`self.dependencies`): after swapping two entries, or repeating one, the target is skipped and its output differs from
+a from-scratch build's. -/
+theorem C01_reordered_sources_counterexample :
+    let P : Params := { sum := id, out := exOutOrdered, listCheck := false }
+    let w1 := (runBuild P exGlobA exOpts [1, 4, 3] exGlobW0).w
+    let stale := fun (t' : Tree) =>
+      let b := runBuild P t' exOpts [1, 4, 3] w1
+      succeeded b 3 = true ∧ b.execs = [] ∧
+        b.w.files 21 ≠ (runBuild P t' exOpts [1, 4, 3] { w1 with recs := fun _ => none }).w.files 21
+    stale exGlobSwapped ∧ stale exGlobTwice := by
+  decide
+
+/-- the repaired engine on the D32 histories: the record remembers other lists than the target has: the target re-runs
+(and then holds what its body computes from the lists as they are: `C01_consistent`) -/
+example :
+    let P : Params := { sum := id, out := exOutOrdered }
+    let w1 := (runBuild P exGlobA exOpts [1, 4, 3] exGlobW0).w
+    (runBuild P exGlobSwapped exOpts [1, 4, 3] w1).execs = [3] := by
+  decide
+example :
+    let P : Params := { sum := id, out := exOutOrdered }
+    let w1 := (runBuild P exGlobA exOpts [1, 4, 3] exGlobW0).w
+    (runBuild P exGlobTwice exOpts [1, 4, 3] w1).execs = [3] := by
+  decide
+
 /-! ## C02 — no spurious rebuilds -/
 
 /-- C02, the skip decision: a target whose record is not marked, whose own `upToDate` test passes, whose every
 dependency was visited unchanged and is listed with its present stamp, and whose record lists nothing besides (`hlen`:
-as many entries as dependencies — a dependency that went away is a change, D29), is skipped (no body, no `Evaluating`). -/
+as many entries as dependencies — a dependency that went away is a change, D29), and which remembers no other lists
+`deps=` / `sources=` / `generates=` than the target has now (`hattrs`, D32), is skipped (no body, no `Evaluating`). -/
 theorem C02_no_spurious {P : Params} {t : Tree} {o : Opts} {s : BSt} {l : Label} {d : Def} (hd : t.defs l = some d)
     (hal : o.always = false)
     (hdeps : ∀ y ∈ depsOf t l d, ∃ m, s.memo y = some m ∧ m.ok = true ∧ m.changed = false ∧
       (loadedInfo s.w l d).deps.lookup y = some m.data)
     (hlen : (loadedInfo s.w l d).deps.length = (depsOf t l d).length)
+    (hattrs : attrsOK P d (loadedInfo s.w l d) = true)
     (hup : upToDate P s.w d (loadedInfo s.w l d) = true) (hrr : (loadedInfo s.w l d).rerun = false) :
     (visit P t o s l).execs = s.execs ∧ (visit P t o s l).w = s.w ∧ (visit P t o s l).evs = .upToDate l :: s.evs := by
-  simp [visit, hd, plan_skip_of hal hdeps (by simp [hlen]) hup hrr]
+  simp [visit, hd, plan_skip_of hal hdeps (by simp [hlen]) hattrs hup hrr]
 
 /-- C02, whole builds: rebuilding an unchanged tree executes nothing. After a real build in which every visited target
 succeeded — from ANY earlier state — a second build of any dependency-ordered sub-list, in a fresh process (fresh
@@ -302,15 +351,19 @@ theorem C03_loadable (P : Params) (t : Tree) (o : Opts) (ord : List Label) (k : 
 
 /-- C03, no false memory: after any history — including builds and loads killed at ANY hook point — every success
 record (`rerun = false`, stamp = a fingerprint `e`) was written by a completed run of that target's body: each
-generated file is missing or is exactly what that run wrote, which is the body applied to `e` and to what the run
-observed, and what it observed is what the stamps the record lists stand for. -/
+generated file is missing or is exactly what that run wrote, which is the body applied to `e`, to the lists the record
+remembers (what the run was handed through `self`) and to what the run observed, and what it observed is what the
+stamps the record lists stand for. -/
 theorem C03_no_false_memory {P : Params} {S : Shape} (hf : Fixed P) {R : Label → Prop} {w : World} (hw : Reach P S R w) :
     ∃ G : Ghost, ∀ l r e, w.recs l = some r → r.rerun = false → r.data = .env e →
       (∀ g ∈ S.gensOf l e, w.files g = .missing ∨ w.files g = .file (G.hist l r.runs g)) ∧
-      (∀ g ∈ S.gensOf l e, G.hist l r.runs g = P.out l e ((S.readsOf l e).map fun x => (x, G.obs l r.runs x)) g) ∧
-      (∀ x ∈ S.readsOf l e, SeenOK P S G r x (G.obs l r.runs x)) := by
-  obtain ⟨G, di, _⟩ := reach_dinv hf.inj hf.stampRuns hf.marker hw
-  exact ⟨G, fun l r e h1 h2 h3 => ⟨di.rec_out l r e h1 h2 h3, di.rec_hist l r e h1 h2 h3, di.rec_seen l r e h1 h2 h3⟩⟩
+      ∃ a, r.attrs = some a ∧
+      (∀ g ∈ S.gensOf l e, G.hist l r.runs g = P.out l e a ((S.readsOf l e a).map fun x => (x, G.obs l r.runs x)) g) ∧
+      (∀ x ∈ S.readsOf l e a, SeenOK P S G r x (G.obs l r.runs x)) := by
+  obtain ⟨G, di, _⟩ := reach_dinv hf.inj hf.stampRuns hf.listCheck hf.marker hw
+  refine ⟨G, fun l r e h1 h2 h3 => ⟨di.rec_out l r e h1 h2 h3, ?_⟩⟩
+  obtain ⟨a, ha⟩ := di.rec_attrs l r e h1 h2 h3
+  exact ⟨a, ha, di.rec_hist l r e a h1 h2 h3 ha, di.rec_seen l r e a h1 h2 h3 ha⟩
 
 /-- C03, convergence: a build killed at hook point `k` — any `k` — followed by a successful build produces exactly
 the files a from-scratch build of the tree produces, hence (by `C01_equiv_clean` for the uninterrupted twin) the same
@@ -521,7 +574,8 @@ def exShape : Shape where
   kindOf := fun l => if l = 1 then .src else .fn
   pathOf := fun _ => 10
   gensOf := fun l _ => if l = 2 then [20] else if l = 3 then [21] else []
-  readsOf := fun l _ => if l = 2 then [1] else if l = 3 then [2] else []
+  -- `d` reads the source it names in its code; `t` reads whatever it is handed (`self.dependencies`, in order)
+  readsOf := fun l _ a => if l = 2 then [1] else if l = 3 then a.1 else []
   owner := fun p => if p = 20 then some 2 else if p = 21 then some 3 else none
   owned := by
     intro l e g h
@@ -574,7 +628,7 @@ theorem exConforms : Conforms exShape exTree where
 
 theorem exOrder : RunnerOrder exTree [1, 2, 3] := ⟨by decide, sorted_of_sortedB exTree _ _ (by decide)⟩
 
-theorem exFixed : Fixed exP := ⟨rfl, rfl, sumInj_id exOut⟩
+theorem exFixed : Fixed exP := ⟨rfl, rfl, rfl, sumInj_id exOut⟩
 
 /-- a reachable state with real content: build, edit the source, build only `d`, a build killed at hook point 9, a collection -/
 theorem exReach :
